@@ -76,7 +76,7 @@ def tsgen_items(ctx, n_items):
     """Sweep (TLC) draws TSGen tree sequences with their tallies; Rescale (TLC) evaluates them"""
     from .. import build
     q = ctx.quick
-    insts = sc.generate(ctx, "c37_gen", simulate=600 if q else 6000, NS=3, NI=3, L=2, max_muts=4,
+    insts = sc.generate(ctx, "c37_gen", simulate=320 if q else 6000, NS=3, NI=3, L=2, max_muts=4,
                         tree_filter="simplified")
     seen, rows, items = set(), [], {}
     for inst in insts:
@@ -126,7 +126,7 @@ def run(ctx):
                        "never admissible with a single interval; otherwise counted (C35)",
                        "midpoints are compared as floats: (t[parent] + t[child]) / 2 in float64"]
     from .. import inputs
-    items = tsgen_items(ctx, 150 if q else 3000)
+    items = tsgen_items(ctx, 100 if q else 3000)
     events, meta = [], {}
     for k, it in enumerate(items):
         res = replay_spec(ctx, it)
